@@ -491,7 +491,10 @@ class MarkdownNormalizer(Renderer):
         return result
 
     def render_thematic_break(self, _element: block.ThematicBreak) -> str:
-        result = f"{self._prefix}* * *\n"
+        # Directly after a `*` bullet, `* * *` would join the marker into one thematic
+        # break (`* * * *`) and the list item would disappear.
+        rule = "- - -" if self._prefix.rstrip().endswith("*") else "* * *"
+        result = f"{self._prefix}{rule}\n"
         self._prefix = self._second_prefix
         return result
 
